@@ -322,7 +322,8 @@ func c09(r *vlib.Run) int {
 	// ---------------- password cases
 	users := []string{"DTAIL-HEALTH", "DTAIL-SCHEDULE", "DTAIL-CONTINUOUS", "tester", "root", "dtail-health", "DTAIL-HEALTH "}
 	passwords := append(append([]string{"DTAIL-HEALTH", "wrong", "", "DTAIL-SCHEDULE", "sched-a ", "SCHED-A"}, schedNames...), contNames...)
-	sources := []string{"127.0.0.1", "127.0.0.2", "127.0.0.3"}
+	// incl. addresses whose text merely starts with / contains an allowed address
+	sources := []string{"127.0.0.1", "127.0.0.2", "127.0.0.3", "127.0.0.10", "127.0.0.19", "127.0.0.100", "127.0.0.21", "127.1.0.1", "127.0.0.31"}
 	allowIPs := func(list []string) map[string]bool {
 		m := map[string]bool{}
 		for _, a := range list {
